@@ -388,14 +388,6 @@ theorem SameIdType.of_aframe {s s1 s2 : St} (h : SameIdType s s1) (hf : AFrame s
   obtain ⟨a1, h1, h2, h3⟩ := h a ha
   exact ⟨a1, by rw [hf.assets]; exact h1, by rw [hf.id]; exact h2, by rw [hf.type]; exact h3⟩
 
-theorem okCount_one (m : Option Nat) : okCount m 1 = true := by
-  cases m with
-  | none => rfl
-  | some k =>
-    cases k with
-    | zero => rfl
-    | succ k => simp [okCount]
-
 theorem resolveIds_single {s : St} {i : Int} {a : Nat} (h : getAssetById s i = some a) :
     resolveIds s [.i i] = some [a] := by
   unfold resolveIds
@@ -468,8 +460,8 @@ theorem loadScadLinks (L : Lang) (nodes : List AssocDecl) (s s1 : St) (h : Inv s
       · intro i hi
         rw [List.mem_singleton] at hi; subst hi
         exact ⟨y2, hy2, ey1, by rw [ey2]; exact hinst.right_type y hy⟩
-      · exact okCount_one _
-      · exact okCount_one _
+      · exact okCount_mono _ (List.length_pos_of_mem hx) hinst.left_count
+      · exact okCount_mono _ (List.length_pos_of_mem hy) hinst.right_count
       · exact nodup_single _
       · exact nodup_single _
       · intro l' hl' hc' i hi j hj ⟨hil, hjr⟩
